@@ -1648,6 +1648,11 @@ func builtinInsertSorted(env *LEnv, args *LVal) *LVal {
 	sortErr := Nil()
 	inCells := seqCells(list)
 	i := sort.Search(len(inCells), func(i int) bool {
+		if !sortErr.IsNil() {
+			// The search cannot be abandoned, but nothing more is evaluated
+			// once the predicate has failed.
+			return false
+		}
 		var expr *LVal
 		if keyFun == nil {
 			expr = SExpr([]*LVal{p, item.Copy(), inCells[i].Copy()})
@@ -1706,6 +1711,11 @@ func builtinSearchSorted(env *LEnv, args *LVal) *LVal {
 	}
 	sortErr := Nil()
 	i := sort.Search(n.Int, func(i int) bool {
+		if !sortErr.IsNil() {
+			// The search cannot be abandoned, but nothing more is evaluated
+			// once the predicate has failed.
+			return false
+		}
 		expr := SExpr([]*LVal{p, Int(i)})
 		ok := env.Eval(expr)
 		if ok.Type == LError {
